@@ -51,7 +51,8 @@ def main():
         else:
             mutate(ev2[i])
         got = validate(run, tmod, cfg, ev2, "st%d_mut" % k)
-        new_bad = sorted(set(f[0] for f in got if f[1] == "bad") - set(f[0] for f in base_bad))
+        # "accept" is the verdict class of registration events (a violation for the check of C08, which owns it)
+        new_bad = sorted(set(f[0] for f in got if f[1] in ("bad", "accept")) - set(f[0] for f in base_bad))
         ok = (not base_bad) and len(new_bad) >= 1 and (new_bad[0] == i + 1 or mutate is None)
         results.append(dict(module=module, corruption=what, line=i + 1, untouched_trace_rejections=len(base_bad), rejected_at=new_bad[:3], ok=ok))
         log("selftest %-8s %-34s corrupted line %d -> rejected at %s  %s %s" % (module, what, i + 1, new_bad[:3], "OK" if ok else "FAILED",
